@@ -225,7 +225,7 @@ impl HCtx {
             })
             .collect();
         let gate = Arc::new(Gate::default());
-        let cfg = || ServerConfig { snapshot_days: self.l1.days, snapshot_versions: self.l1.versions };
+        let cfg = || ServerConfig { snapshot_days: self.l1.days, snapshot_versions: self.l1.versions, ..Default::default() };
         let allow: Option<HashSet<Uuid>> = self.allow.clone().map(|v| v.into_iter().map(|c| self.l1.clients[&c]).collect());
         let n = preps.len();
         let mut webs: Vec<WebServer> = vec![];
